@@ -161,12 +161,27 @@ def cache_options(cfg):
 
 
 _NEIGHBOURS = []  # a few other simulations kept alive in the process (see make_riscv)
-_MADE = [0]
+_MADE = [0, 0]
+
+
+_WEBGUI = [None]
 
 
 def _mk(mode, hz, dcache, icache):
     from architecture_simulator.simulation.riscv_simulation import RiscvSimulation
 
+    # every third simulation is built the way the web front end builds it (gui.webgui.get_riscv_simulation): a
+    # configuration must mean the same however the simulation was constructed
+    if _WEBGUI[0] is None:
+        try:
+            from architecture_simulator.gui import webgui
+
+            _WEBGUI[0] = getattr(webgui, "get_riscv_simulation", False)
+        except Exception:
+            _WEBGUI[0] = False
+    _MADE[1] += 1
+    if _WEBGUI[0] and _MADE[1] % 3 == 0:
+        return _WEBGUI[0]("".join(list("five_stage_pipeline" if mode == "five" else "single_stage_pipeline")), hz, cache_options(dcache), cache_options(icache))
     return RiscvSimulation(
         mode="".join(list("five_stage_pipeline" if mode == "five" else "single_stage_pipeline")),
         detect_data_hazards=hz,
